@@ -7,17 +7,17 @@ sys.path.insert(0, os.path.join(V, "tools"))
 import mkmanifest, mkdesign_tables
 
 MODELS = {
-    "C01": ("Model/Hap.v, Model/Spec.v; Proofs/HapProofs.v", "stack"), "C02": ("Model/Hap.v; Proofs/HapProofs.v", "stack"),
+    "C01": ("Model/Hap.v, Model/Spec.v, Model/Sessions.v (the session table and its key); Proofs/HapProofs.v, SessionsProofs.v", "stack (incl. the shared-address runs NS / NSI)"), "C02": ("Model/Hap.v; Proofs/HapProofs.v", "stack"),
     "C03": ("Model/Hap.v; Proofs/HapProofs.v", "stack"), "C04": ("Model/Hap.v, Model/Spec.v, Model/Framing.v, Model/Srp.v; Proofs/HapProofs.v, SpecProofs.v, FramingProofs.v, SrpProofs.v (and SrpFast.v for the evaluation of the SRP model)", "stack + srp + config"),
-    "C05": ("Model/Framing.v, Base/ChaCha20Poly1305 + HKDF-SHA-512; Proofs/FramingProofs.v, Base/ChaChaPolyProofs.v", "frame"),
+    "C05": ("Model/Framing.v, Model/ConnRead.v, Model/Pipeline.v (requests buffered across the switch to the secure session), Base/ChaCha20Poly1305 + HKDF-SHA-512; Proofs/FramingProofs.v, ConnAdvProofs.v, PipelineProofs.v, Base/ChaChaPolyProofs.v", "frame + conn + stack (VR, INJ)"),
     "C06": ("Model/Framing.v; Proofs/FramingProofs.v", "frame"), "C07": ("Model/ConnRead.v; Proofs/ConnReadProofs.v", "conn"),
     "C08": ("Model/ConnWrite.v; Proofs/ConnWriteProofs.v", "connw"), "C09": ("Model/Hap.v (do_get / do_put), Model/Charac.v, Model/Respond.v; Proofs/HapProofs.v, RespondProofs.v", "stack + connw (resp)"),
-    "C10": ("Model/Hap.v (notify, subscriptions); Proofs/HapProofs.v", "stack"), "C11": ("Model/Charac.v, Model/Hap.v; Proofs/CharacProofs.v, HapProofs.v", "charac + stack"),
-    "C12": ("Model/Charac.v; Proofs/CharacProofs.v", "charac"), "C13": ("Model/Hap.v, Model/Charac.v; Proofs/HapProofs.v, CharacProofs.v", "stack"),
+    "C10": ("Model/Hap.v (notify, subscriptions), Model/Update.v (several writers of one value); Proofs/HapProofs.v, UpdateProofs.v", "stack (incl. DUPW, LSPLIT)"), "C11": ("Model/Charac.v, Model/Hap.v; Proofs/CharacProofs.v, HapProofs.v", "charac + stack"),
+    "C12": ("Model/Charac.v; Proofs/CharacProofs.v", "charac"), "C13": ("Model/Hap.v, Model/Charac.v, Model/Sessions.v (late close); Proofs/HapProofs.v, CharacProofs.v, SessionsProofs.v", "stack (incl. RSC)"),
     "C14": ("Model/Ids.v, Gen/CatalogGen.v; Proofs/IdsProofs.v", "ids"), "C15": ("Model/Catalog.v, Gen/CatalogGen.v, Gen/MetadataGen.v; Proofs/CatalogProofs.v", "catalog"),
     "C16": ("Model/Tlv8.v; Proofs/Tlv8Proofs.v", "tlv"), "C17": ("Model/TlvStruct.v, Gen/RtpGen.v; Proofs/TlvStructProofs.v, Proofs/TlvRoundtrip.v", "tstruct"),
-    "C18": ("Model/Storage.v; Proofs/StorageProofs.v", "storage + db"), "C19": ("Model/Storage.v (set_ops, crash prefixes); Proofs/StorageProofs.v", "crash"),
-    "C20": ("Model/Pin.v, Model/Config.v; Proofs/ConfigProofs.v", "config"),
+    "C18": ("Model/Storage.v (incl. merge: interleaved writes); Proofs/StorageProofs.v", "storage + db (incl. CS)"), "C19": ("Model/Storage.v (set_ops, writes_ops: sets, deletes, names at NAME_MAX; crash prefixes); Proofs/StorageProofs.v", "crash + storage (CS)"),
+    "C20": ("Model/Pin.v, Model/Config.v (incl. first_start_cut: a first start that ends early); Proofs/ConfigProofs.v", "config"),
 }
 
 
